@@ -5,6 +5,7 @@
    cmd.concurrency < 1  -> UsageError              Err "usage"          (exit status 2)
    calc.Eval(expr) fails -> Fail                   Err "eval"           (exit status 1)
    n.Sign() < 1 -> Fail                            Err "nonpos"         (exit status 1)
+   concurrency := min(cmd.concurrency, len(as))    no effect on the result (C12), not modelled
    rs := ex.Execute(n, ensemble.Ensemble())        ens n : outcome (list ares), the SEQUENTIAL list of
                                                    exec.Execute results (C12: the parallel executor returns
                                                    exactly that list under every schedule and every limit >= 1)
@@ -25,6 +26,7 @@ From Coq Require Import String.
 From Coq Require Import List NArith ZArith Bool Arith QArith.
 From AV Require Import model.Proto model.Chain model.Program model.Ir model.Ast
   model.Decompile model.Naming model.Build model.Printer model.Calc.
+From AV Require model.Peg model.Translate.
 Import ListNotations.
 Open Scope Z_scope.
 
@@ -137,3 +139,18 @@ Definition exit_status (o : outcome sout) : option Z :=
   | Err c => if str_eqb c ($"usage") then Some 2 else Some 1
   | _ => None
   end.
+
+(* ---- the commands the property applies to search's output ---- *)
+
+(* cmd/addchain/eval.go: parse, Translate, pass.Eval (= acc.LoadString, model/Translate.v load_m), then one
+   line per operation "[n+1] I+J Chain[n+1]" and the totals line: doubles, adds := p.Program.Count() *)
+Definition eval_cmd (src : list N) : outcome (list (nat * op * Z) * (nat * nat)) :=
+  obind (Translate.load_m src) (fun r =>
+    let '(_, ops, c) := r in
+    obind (detail_lines O ops c) (fun l => Ok (l, count ops))).
+
+(* cmd/addchain/fmt.go without -b: parse, print.  (With -b the tree is rebuilt by acc.Build from the
+   translated program, whose operands carry identifiers; model/Build.v covers identifier-free operands
+   only, so fmt -b is not modelled: the check's oracle runs the real command.) *)
+Definition fmt_cmd (src : list N) : outcome (list N) :=
+  obind (Peg.parse src) (fun s => Ok (print_script s)).
